@@ -258,7 +258,9 @@ def check_to_binary(prog, rep, key, src, f, ro, gray):
                 return v is not None and v == gray[src].get("GRAY_50") or (t[3][0][0] == "const" and "GRAY_50" in str(t[3][0][1]))
             return t == ("const", gray[src].get("GRAY_50"))
         what = "gray->binary must be luma >= GRAY_50.luma()"
+        THR = gray[src].get("GRAY_50") if isinstance(gray[src].get("GRAY_50"), int) else 1 << 20
     else:
+        THR = 128
         def is_l(t):
             if not (t[0] == "call" and t[1].endswith("conversion::luma") and len(t[3]) == 1):
                 return False
@@ -277,14 +279,37 @@ def check_to_binary(prog, rep, key, src, f, ro, gray):
         if vo is None or not vo[0].endswith("BinaryColor") or sm.effects:
             bad.append("a path returns %s" % show(sm.ret, maxd=4))
             continue
-        seen.add(vo[1])
         fs = [tuple(fold(x) if isinstance(x, tuple) else x for x in fct) for fct in sm.facts]
-        if vo[1] == "On":
-            good = any((fct[0] == "le" and is_thr(fct[1]) and is_l(fct[2])) for fct in fs)
-        else:
-            good = any((fct[0] == "lt" and is_l(fct[1]) and is_thr(fct[2])) for fct in fs)
-        if not good or len(fs) != 1:
-            bad.append("%s is returned when %s" % (vo[1], "; ".join(show_fact(x) for x in sm.facts) or "always"))
+        # the luma L is an unsigned value: each fact L < c / c <= L / .. narrows [lo, hi]; a path whose range is empty
+        # cannot be taken (the `0 <= L` test of a range pattern `0..=127` failing, say); a threshold-sided range decides
+        lo, hi, other, thr_seen = 0, None, [], False
+        for fct in fs:
+            rel = fct[0]
+            if rel in ("lt", "le") and is_l(fct[1]) and (is_thr(fct[2]) or (fct[2][0] == "const" and isinstance(fct[2][1], int))):
+                c = "T" if is_thr(fct[2]) else fct[2][1]
+                up = (c, -1 if rel == "lt" else 0)
+                hi = up if hi is None else min(hi, up, key=lambda z: (z[0] if z[0] != "T" else THR) + z[1])
+                thr_seen = thr_seen or c == "T"
+            elif rel in ("lt", "le") and is_l(fct[2]) and (is_thr(fct[1]) or (fct[1][0] == "const" and isinstance(fct[1][1], int))):
+                c = "T" if is_thr(fct[1]) else fct[1][1]
+                dn = (c, 1 if rel == "lt" else 0)
+                val = lambda z: (z[0] if z[0] != "T" else THR) + z[1]
+                lo = dn if (lo == 0 or val(dn) > val(lo if lo != 0 else (0, 0))) else lo
+                thr_seen = thr_seen or c == "T"
+            else:
+                other.append(fct)
+        val = lambda z: (z[0] if z[0] != "T" else THR) + z[1]
+        lo_v = 0 if lo == 0 else val(lo)
+        hi_v = None if hi is None else val(hi)
+        if hi_v is not None and lo_v > hi_v:
+            continue   # infeasible path
+        seen.add(vo[1])
+        if other:
+            bad.append("%s depends on %s" % (vo[1], "; ".join(show_fact(x) for x in other[:2])))
+        elif vo[1] == "On" and not (lo_v >= THR):
+            bad.append("On is returned when %s" % ("; ".join(show_fact(x) for x in sm.facts) or "always"))
+        elif vo[1] == "Off" and not (hi_v is not None and hi_v <= THR - 1):
+            bad.append("Off is returned when %s" % ("; ".join(show_fact(x) for x in sm.facts) or "always"))
     rep.check(not bad and seen == {"On", "Off"}, "R13.4", key, what + "; " + "; ".join(bad[:2]), at=f.span, fn=f.path)
 
 
